@@ -181,14 +181,11 @@ def recordVote (c : Coord) (tx shard : Nat) (v : Option Nat) : Coord × CoRes :=
     else if (aGet p.votes shard).isSome then (c, .duplicate)
     else
       let p1 : PTx := { p with votes := aInsert p.votes shard v }
-      if p1.allVoted then
-        if p1.allYes then
-          ({ c with pending := aModify c.pending tx (fun _ => { p1 with phase := .prepared }) },
-            .recorded (some .prepared))
-        else
-          ({ c with pending := aModify c.pending tx (fun _ => { p1 with phase := .aborting }) },
-            .recorded (some .aborting))
-      else ({ c with pending := aModify c.pending tx (fun _ => p1) }, .recorded none)
+      -- `if tx.all_voted() { if tx.all_yes() { Prepared } else { Aborting } }`
+      let ph : Option Phase :=
+        if p1.allVoted then (if p1.allYes then some .prepared else some .aborting) else none
+      ({ c with pending := aModify c.pending tx (fun _ => { p1 with phase := ph.getD p1.phase }) },
+        .recorded ph)
 
 /-- phase update of one pending transaction in `recover` -/
 def recoverPhase (p : PTx) : PTx :=
